@@ -24,7 +24,7 @@ ASSUMPTIONS = ['table keys for labels that end in a digit are always written wit
 
 def budget(tier):
     if tier == 'thorough':
-        return dict(examples=2000, shards=16, procs=16)
+        return dict(examples=6000, shards=16, procs=16)
     return dict(examples=1500, shards=4, procs=4)
 
 
